@@ -2,6 +2,8 @@
 
 package rux
 
+import "sync"
+
 // Verification seams, enabled with the build tag "verif" only.
 //
 // A deterministic simulator installs functions in VerifHooks to own the
@@ -16,10 +18,11 @@ var VerifHooks struct {
 	// Yield is called at named points where another request may be scheduled.
 	// It is never called while a lock of this package is held.
 	Yield func(site string)
-	// PoolGet receives the context just taken from the real pool and returns the one to use.
-	PoolGet func(r *Router, c *Context) *Context
-	// PoolPut receives the context being released and returns the one to hand to the real pool.
-	PoolPut func(r *Router, c *Context) *Context
+	// PoolGet replaces sync.Pool.Get for the router's context pool: it returns a context
+	// the simulator chooses to reuse, or newFn() for a fresh one.
+	PoolGet func(newFn func() any) any
+	// PoolPut replaces sync.Pool.Put for the router's context pool.
+	PoolPut func(x any)
 	// Order may permute items (it must return a permutation of them).
 	Order func(site string, items []string) []string
 	// Actions splits the REST action table into batches that are registered in order.
@@ -32,18 +35,32 @@ func verifYield(site string) {
 	}
 }
 
-func verifPoolGet(r *Router, c *Context) *Context {
-	if h := VerifHooks.PoolGet; h != nil {
-		return h(r, c)
-	}
-	return c
+// verifCtxPool is the type of Router.ctxPool in the verif build: a sync.Pool
+// whose Get and Put can be taken over by the simulator, so that every pool
+// operation of the package, whatever its call site, goes through the seam.
+type verifCtxPool struct {
+	New  func() any
+	real sync.Pool
 }
 
-func verifPoolPut(r *Router, c *Context) *Context {
-	if h := VerifHooks.PoolPut; h != nil {
-		return h(r, c)
+// Get a context from the pool.
+func (p *verifCtxPool) Get() any {
+	if h := VerifHooks.PoolGet; h != nil {
+		return h(p.New)
 	}
-	return c
+	if p.real.New == nil {
+		p.real.New = p.New
+	}
+	return p.real.Get()
+}
+
+// Put a context back.
+func (p *verifCtxPool) Put(x any) {
+	if h := VerifHooks.PoolPut; h != nil {
+		h(x)
+		return
+	}
+	p.real.Put(x)
 }
 
 func verifOrder(site string, items []string) []string {
@@ -58,11 +75,6 @@ func verifActionBatches(m map[string][]string) []map[string][]string {
 		return h(m)
 	}
 	return []map[string][]string{m}
-}
-
-// VerifNewContext returns a context exactly as the pool's New function builds it.
-func (r *Router) VerifNewContext() *Context {
-	return r.ctxPool.New().(*Context)
 }
 
 // VerifCache returns the router's route cache (nil when caching is off or no route was added).
